@@ -269,6 +269,11 @@ def hooks(I):
     I.builtin_handlers["__getattr_hook__"] = getattr_hook
 
     def cmp_hook(I, op, a, b):
+        if op in ("eq", "ne"):
+            # an expression object of a class without its own __eq__ never equals a tuple / string / None (Expression.__eq__: is_equal needs the same type)
+            for u, v in ((a, b), (b, a)):
+                if isinstance(u, ExprV) and ((isinstance(v, Conc) and isinstance(v.obj, (tuple, str, type(None)))) or isinstance(v, PyTuple)):
+                    return Conc(op == "ne")
         if isinstance(a, RingV) or isinstance(b, RingV):
             ta, tb = ring_term(a), ring_term(b)
             if op in ("eq", "ne") and ta is not None and tb is not None:
@@ -436,3 +441,43 @@ def contracts():
                                     raises=[("always-TypeError", lambda self, other: True, TypeError)], setup=setup_expr, arithmetic=True,
                                     property_id="C03"))
     return out
+
+
+# ----------------------------------------------------------------------------- call / subscript / attribute / comparison / logical constructors
+# Structural contracts (the node built is exactly the one the syntax denotes).
+def constructor_contracts():
+    from pyvc.api import same
+    out = []
+    E = "pymbolic.primitives:Expression."
+
+    def st(I, inputs):
+        setup_expr(I, inputs)
+
+    # self[subscript]: a Subscript of self with that index -- for EVERY index value (0, 0.0, False, an expression, a tuple); the only exception is
+    # the deprecated empty tuple, for which the aggregate itself is returned
+    for kind, label in (("int", "int"), ("real", "float"), ("bool", "bool"), ("v", "expr")):
+        def gi_post(self, subscript, result):
+            return isinstance(result, p.Subscript) and same(result.aggregate, self) and same_index(result.index, subscript)
+        out.append(FunctionContract(f"C03.Expression.__getitem__[index:{label}]", E + "__getitem__", [("self", "v"), ("subscript", kind)],
+                                    ensures=[("subscript-node", gi_post)], setup=st, arithmetic=True, property_id="C03"))
+
+    def attr_post(self, name, result):
+        return isinstance(result, p.Lookup) and same(result.aggregate, self) and result.name == name
+    out.append(FunctionContract("C03.Expression.attr", E + "attr", [("self", "v"), ("name", "str")], ensures=[("lookup-node", attr_post)], setup=st,
+                                arithmetic=True, property_id="C03"))
+    for meth, op in (("eq", "=="), ("ne", "!="), ("le", "<="), ("lt", "<"), ("ge", ">="), ("gt", ">")):
+        def cmp_post(self, other, result, op=op):
+            return isinstance(result, p.Comparison) and same(result.left, self) and result.operator == op and same(result.right, other)
+        out.append(FunctionContract(f"C03.Expression.{meth}", E + meth, [("self", "v"), ("other", "v")], ensures=[("comparison-node", cmp_post)], setup=st,
+                                    arithmetic=True, property_id="C03"))
+
+    def not_post(self, result):
+        return isinstance(result, p.LogicalNot) and same(result.child, self)
+    out.append(FunctionContract("C03.Expression.not_", E + "not_", [("self", "v")], ensures=[("not-node", not_post)], setup=st, arithmetic=True, property_id="C03"))
+    return out
+
+
+def same_index(a, b):
+    """The index stored in the node is the index given (identity for objects, equality with type for numbers)."""
+    from pyvc.api import same
+    return same(a, b)
